@@ -5,8 +5,19 @@ use crate::seams::SimStorage;
 use serde_json::Value;
 use std::collections::BTreeMap;
 
-pub const ASK_PREFIX: &[u8] = b"\x00\x03ask";
-pub const BID_PREFIX: &[u8] = b"\x00\x03bid";
+/// storage prefixes of the two order maps: cw-storage-plus length-prefixes the namespace, and the
+/// namespaces are the crate's own public constants (a renamed namespace is followed, not alarmed on)
+pub fn ask_prefix() -> Vec<u8> {
+    prefix_of(ats_smart_contract::ask_order::NAMESPACE_ORDER_ASK)
+}
+pub fn bid_prefix() -> Vec<u8> {
+    prefix_of(ats_smart_contract::bid_order::NAMESPACE_ORDER_BID)
+}
+fn prefix_of(ns: &str) -> Vec<u8> {
+    let mut v = (ns.len() as u16).to_be_bytes().to_vec();
+    v.extend_from_slice(ns.as_bytes());
+    v
+}
 
 #[derive(Clone, Debug, PartialEq)]
 pub enum AskClass {
@@ -266,12 +277,12 @@ pub fn decode_cfg_value(v: &Value) -> Result<Cfg, DecodeError> {
 }
 
 pub fn ask_key(id: &str) -> Vec<u8> {
-    let mut k = ASK_PREFIX.to_vec();
+    let mut k = ask_prefix();
     k.extend_from_slice(id.as_bytes());
     k
 }
 pub fn bid_key(id: &str) -> Vec<u8> {
-    let mut k = BID_PREFIX.to_vec();
+    let mut k = bid_prefix();
     k.extend_from_slice(id.as_bytes());
     k
 }
@@ -284,16 +295,11 @@ pub enum KeyClass {
 }
 
 pub fn classify(key: &[u8]) -> (KeyClass, String) {
-    if key.starts_with(ASK_PREFIX) {
-        (
-            KeyClass::Ask,
-            String::from_utf8_lossy(&key[ASK_PREFIX.len()..]).to_string(),
-        )
-    } else if key.starts_with(BID_PREFIX) {
-        (
-            KeyClass::Bid,
-            String::from_utf8_lossy(&key[BID_PREFIX.len()..]).to_string(),
-        )
+    let (ap, bp) = (ask_prefix(), bid_prefix());
+    if key.starts_with(&ap) {
+        (KeyClass::Ask, String::from_utf8_lossy(&key[ap.len()..]).to_string())
+    } else if key.starts_with(&bp) {
+        (KeyClass::Bid, String::from_utf8_lossy(&key[bp.len()..]).to_string())
     } else {
         (KeyClass::Singleton, String::from_utf8_lossy(key).to_string())
     }
